@@ -867,6 +867,12 @@ func toASTPosition(pos Position) ast.Position {
 }
 
 func normalizeNumber(s string) string {
+	// The separator rules look at the digits around the marks: the exponent part is not
+	// part of them (9.4E2 has one digit after its mark, not three characters).
+	if i := strings.IndexAny(s, "eE"); i >= 0 {
+		return normalizeNumber(s[:i]) + s[i:]
+	}
+
 	var dotCount, commaCount int
 	var lastDot, lastComma int
 
